@@ -25,6 +25,7 @@ RULE = ('random programs of 1-5 operations from {copy, slice (int/slice/list '
 RULE += (" save(format='ioapi') is a legal query step inside a program (the next file built must not inherit anything); programs stop after apply over TSTEP (time metadata is then the caller's).")
 RULE += (' A share of the gridded files is the IOAPI-class object the CAMx gridded READER (uamiv) returns for an image written by the independent codec (whole-hour steps up to 168 h, ETFLAG present, header completed by the class).')
 RULE += (" Writer case (one gridded case in five with >= 2 steps): the same IOAPI content saved, opened as a plain netCDF file (no format named), cut to its later steps with the generic slice and written through the 'ioapi' writer; the written file must be coherent, decode to the kept steps, and close its last interval with the step it states. Files from the CAMx reader include surface files with nz = 0 in the grid header.")
+RULE += (' IOAPI files may carry a variable without dimensions.')
 ASSUMPTIONS = [
     'a file with zero listed variables may keep VAR/TFLAG second axis of '
     'length 1 (the convention cannot express an empty axis)',
